@@ -156,6 +156,32 @@ def make_scenarios(ctx, count):
     return scns
 
 
+def make_churn_scenarios(ctx, count):
+    """the observation record steered to particular fill levels and poked there (G.obs_churn): a container that grows, shrinks,
+    wraps or re-uses slots has its dangling pointers and one-past-the-end slots at those levels"""
+    scns = []
+    for i in range(count):
+        rng = G.rng_for(ctx.seed, "C01churn", i)
+        cfg = G.rand_cfg(rng, mtu=rng.choice([576, 1500, 1500, 9000]))
+        net = G.Net(rng, cfg["mac"])
+        m = rng.randrange(len(net.mappers))
+        frames, mtu_changes, st = G.obs_churn(rng, net, m, cfg["mtu"], mode=["small", "boundaries", "small", "sawtooth", "flood"][i % 5],
+                                             budget=ctx.n(1500, 3000), discover_every=0.1)
+        s = H.Scenario("ch%d" % i, meta=dict(fam="churn"))
+        s.iface(0, **H.iface_kw(cfg)).glob(**G.global_kw(G.rand_global(rng)))
+        s.add("OPT sleep=0 txhex=0")
+        s.add("FILL %d" % rng.choice([165, 90, 0, 255]))
+        oplist = []
+        for k, fr in enumerate(frames):
+            if k in mtu_changes:
+                s.add("MTU 0 %d %d" % (mtu_changes[k], cfg["rxseed"]))
+            s.frame(0, fr, op="F")
+            oplist.append(("F", fr))
+        s.meta.update(nops=len(frames), ops=oplist, mtu=cfg["mtu"], rxseed=cfg["rxseed"])
+        scns.append(s)
+    return scns
+
+
 STATION_WALK_KEY = "C01:station-list-walk-exceeds-buffer:derive_session_event"
 
 
@@ -265,6 +291,8 @@ def run(ctx):
                        "landing in another live allocation are invisible to red zones"]
     n = ctx.n(4000, 64000)
     scns = make_scenarios(ctx, n)
+    churn = make_churn_scenarios(ctx, ctx.n(60, 1200))
+    scns = churn + scns
     asan = H.build(ctx.work, "asan")
     run_monitored(ctx, asan, scns, monitor, tag="asan", cpu_limit=30)
     coverage_run(ctx, scns[:800])
@@ -278,3 +306,4 @@ def run(ctx):
     rep.need("inputs_executed", rep.counters.get("inputs_executed", 0), ctx.n(100000, 1500000))
     for fam in FAMILIES:
         rep.need("family:" + fam, rep.counters.get("family:" + fam, 0), 100)
+    rep.need("family:churn", rep.counters.get("family:churn", 0), 50)
